@@ -211,9 +211,11 @@ def rand_ns(rng, depth):
     children = {}
     for name in rng.sample(NAMES, rng.randint(0, 3)):
         children[name] = rand_ns(rng, depth - 1) if depth > 0 and rng.random() < 0.4 else rand_port(rng)
-    if children and rng.random() < 0.1:
-        # a default for the namespace itself
-        attrs['default'] = ['val', {}]
+    if children and rng.random() < 0.25:
+        # a default for the namespace itself: empty, or holding (empty) mappings for the namespaces declared below it, which are
+        # completed with *their* defaults for each process anew
+        subs = [n for n, d in children.items() if d[0] == 'ns']
+        attrs['default'] = ['val', {n: {} for n in subs} if subs and rng.random() < 0.6 else {}]
     return ['ns', attrs, children]
 
 
@@ -291,7 +293,21 @@ def _real(value):
     return value
 
 
+def _factory_specs():
+    """Specs in which factory (callable) defaults sit one, two and three levels below a namespace that has a plain default naming the
+    namespaces below it: the declared default is a template, never the object a process works on."""
+    leafs = {'a': ['port', {'default': ['call', 'serial']}], 'ab': ['port', {'default': ['call', 'cls_list']}], 'n': ['port', {'default': ['val', 5], 'valid_type': 'int'}]}
+    m = ['ns', {}, dict(leafs)]
+    yield ['ns', {}, {'x': ['ns', {'default': ['val', {'m': {}}]}, {'m': m}]}]
+    yield ['ns', {}, {'x': ['ns', {'default': ['val', {'m': {'m': {}}}]}, {'m': ['ns', {}, {'m': copy.deepcopy(m), 'n': ['port', {'default': ['call', 'cls_A']}]}]}]}]
+    yield ['ns', {}, {'x': ['ns', {'default': ['val', {}]}, dict(leafs)], 'm': copy.deepcopy(m)}]
+
+
 def gen_cases(tier, seed):
+    for k, spec in enumerate(_factory_specs()):
+        for inputs in (None, {}, {'x': {}}, {'x': {'m': {}}}):
+            yield {'spec': spec, 'inputs': inputs, 'si': 100000 + 3 * k}
+            yield {'spec': spec, 'inputs': inputs, 'si': 100000 + 3 * k, 'exposed': True}
     rng = plans.rng_for(seed, 'c11')
     nspecs, ninputs, depth = (250, 40, 2) if tier == 'quick' else (4000, 60, 3)
     for s in range(nspecs):
